@@ -347,8 +347,10 @@ class Program:
             raise ResolveError("function %s: %d matches" % ("::".join(suffix), len(hits)))
         return hits[0]
 
-    def find_trait_fn(self, ty, trait, method):
+    def find_trait_fn(self, ty, trait, method, targs=""):
         c = self.trait_impls.get((ty, trait, method), [])
+        if len(c) > 1:
+            c = [x for x in c if x[0] == targs]
         if len(c) != 1:
             raise ResolveError("trait fn <%s as %s>::%s: %d matches" % (ty, trait, method, len(c)))
         return c[0][1]
